@@ -6,7 +6,9 @@
 (*                       as a "HIST|<json>" line for replay into the code. *)
 (*   MC_Lsp_AsBuilt.cfg  AsBuilt = {"PositionUnwrap"}: TLC returns the     *)
 (*                       counterexample open; request past the line end;   *)
-(*                       any further message => ~alive  (finding #7).      *)
+(*                       any further message => ~alive  (finding #7, fixed  *)
+(*                       in /repo by 5761f44; kept as documentation: the   *)
+(*                       model still yields it, the code no longer does).  *)
 (*   MC_Lsp_Race.cfg     AsBuilt = {"AnalysisPanic"}: the race guarded by  *)
 (*                       assert!(!handle.is_finished()).                   *)
 (*   MC_Lsp_Live.cfg     small instance with the liveness property.        *)
